@@ -320,7 +320,7 @@ pub fn run(ctx: &Ctx) {
         "evalcase",
     );
 
-    let n = ctx.tier.pick(200_000u64, 4_000_000u64);
+    let n = ctx.tier.pick(500_000u64, 6_000_000u64);
     ctx.random_min(
         "random-lazy-trees",
         n,
